@@ -26,6 +26,7 @@ except ImportError:
 
 from . import __version__ as VERSION
 from .dynamic_typing import ModelMeta, register_datetime_classes, registry
+from .dynamic_typing import registry as str_types_registry  # `registry` is shadowed by a local name in Cli.run
 from .generator import MetadataGenerator
 from .models import ModelsStructureType
 from .models.attr import AttrsModelCodeGenerator
@@ -103,7 +104,8 @@ class Cli:
         dict_keys_fields: List[str] = namespace.dict_keys_fields
         preamble: str = namespace.preamble
 
-        for name in namespace.disable_str_serializable_types:
+        self.disabled_str_types = list(namespace.disable_str_serializable_types)
+        for name in self.disabled_str_types:
             registry.remove_by_name(name)
 
         self.setup_models_data(namespace.model or (), namespace.list or (), parser)
@@ -114,6 +116,9 @@ class Cli:
     def run(self):
         if self.enable_datetime:
             register_datetime_classes()
+            # Datetime classes are registered after the arguments were parsed: disable the unwanted ones again
+            for name in getattr(self, 'disabled_str_types', ()):
+                str_types_registry.remove_by_name(name)
         generator = MetadataGenerator(
             dict_keys_regex=self.dict_keys_regex,
             dict_keys_fields=self.dict_keys_fields
